@@ -197,6 +197,25 @@ pub fn exec(ctx: &mut Ctx, op: &str, p: &mut Toks) -> String {
                 None => "err reject".into(),
             }
         }
+        "obj.seq" => {
+            // ONE objective value evaluated on several pairs in a row (of different sizes and ranks): every evaluation
+            // depends on its own pair only
+            let name = p.tok().to_string();
+            let clamp = if p.peek_none() { None } else { Some((p.flt(), p.flt())) };
+            let k = p.nat();
+            let pairs: Vec<(Tensor, Tensor)> = (0..k).map(|_| { let a = p.tensor(); let b = p.tensor(); (a, b) }).collect();
+            let f = ObjFn::create(obj_of(&name), clamp);
+            let mut out = Vec::new();
+            for (pred, target) in pairs.iter() {
+                let res = try_run(|| f.loss(pred, target));
+                objective_checks(ctx, &name, clamp, pred, target, &res);
+                out.push(match res {
+                    Some((l, g)) => format!("{} {}", rf(l), rt(&g)),
+                    None => "reject".into(),
+                });
+            }
+            format!("ok {}", out.join(" | "))
+        }
         "opt.run" => opt_run(ctx, p),
         _ => format!("bad unknown op {}", op),
     }
